@@ -141,6 +141,10 @@ func (n *namer) raw(kind string) string {
 		b.WriteString("_")
 	}
 	s := b.String()
+	if kind == "type" {
+		// a leading underscore on an object type with resolvers is known finding F17e (directed project)
+		s = strings.TrimLeft(s, "_")
+	}
 	if kind == "type" && r.Below(3) != 0 {
 		i := 0
 		for i < len(s) && s[i] == '_' {
@@ -184,11 +188,12 @@ func badType(s string) bool {
 	return strings.HasPrefix(k, "all") || strings.HasSuffix(k, "resolver")
 }
 
+// deepNN fixes, per project and base type, the nullability of every level below the first list element:
+// gqlgen's TypeReference.UniquenessKey only records the outermost and the first element's nullability, so
+// `[[T!]]` next to `[[T]]` panics with "non-unique key" (known finding F17f, replayed as a directed project).
+var deepNN = map[string]bool{}
+
 func wrap(r *rng.R, base string) string {
-	t := base
-	if r.Below(3) == 0 {
-		t += "!"
-	}
 	d := 0
 	switch r.Below(10) {
 	case 0, 1, 2:
@@ -200,10 +205,24 @@ func wrap(r *rng.R, base string) string {
 			d = 3
 		}
 	}
-	for i := 0; i < d; i++ {
-		t = "[" + t + "]"
-		if r.Bool() {
+	t := base
+	nn := r.Below(3) == 0
+	for i := 0; i <= d; i++ {
+		// level i counted from the innermost; levels d (outermost) and d-1 (first element) are free
+		if i < d-1 {
+			v, ok := deepNN[base]
+			if !ok {
+				v = r.Bool()
+				deepNN[base] = v
+			}
+			nn = v
+		}
+		if nn {
 			t += "!"
+		}
+		if i < d {
+			t = "[" + t + "]"
+			nn = r.Bool()
 		}
 	}
 	return t
@@ -283,6 +302,7 @@ func pick(r *rng.R, xs []string) string { return xs[r.Below(len(xs))] }
 
 func genProject(r *rng.R, name string, tier string) *project {
 	p := &project{name: name, cfg: map[string]string{}}
+	deepNN = map[string]bool{}
 	p.nfiles = 1 + r.Below(3)
 	tn := newNamer(r)
 	newType := func(kind string) *gType {
@@ -632,6 +652,10 @@ func genProject(r *rng.R, name string, tier string) *project {
 	for _, n := range objects {
 		t := p.byName(n)
 		for _, f := range t.fields {
+			// an interface field that is a resolver + omit_resolver_fields is known finding F17d (directed project)
+			if ifaceFieldNames[normKey(f.name)] && p.cfg["omit_resolver_fields"] == "true" {
+				continue
+			}
 			if r.Below(5) == 0 {
 				p.resMark = append(p.resMark, t.name+"."+f.name)
 			}
